@@ -13,9 +13,9 @@ def Clash (id x : Bytes) : Prop := x = id ∨ x = typed id ∨ typed x = id
 /-- the id is not confusable with any bucket name, stored value or other entity id of the state
     (`boltz.ValidateDeleted` compares raw bytes, so this is the side condition under which "no
     trace" is meaningful) -/
-structure NoClash (id : Id) (s : State) : Prop where
+structure NoClash (nm : Names) (id : Id) (s : State) : Prop where
   ne : id ≠ []
-  reserved : ∀ x, x ∈ reserved → ¬ Clash id x
+  reserved : ∀ x, x ∈ reserved nm → ¬ Clash id x
   nil : ¬ Clash id nilField
   aIds : ∀ j e, s.a.lookup j = some e → j ≠ id → ¬ Clash id j
   bIds : ∀ j e, s.b.lookup j = some e → j ≠ id → ¬ Clash id j
@@ -112,14 +112,14 @@ theorem RcInv.bwd_source {r : RcPair} {aEx bEx : Id → Bool} (h : RcInv r aEx b
   | none => simp [cnt, hm] at h1
   | some ca => exact h.fwdDom a ca hm
 
-theorem safe_reserved {id : Bytes} {s : State} (hc : NoClash id s) {x : Bytes} (hx : x ∈ reserved) : Safe id x :=
+theorem safe_reserved {nm : Names} {id : Bytes} {s : State} (hc : NoClash nm id s) {x : Bytes} (hx : x ∈ reserved nm) : Safe id x :=
   safe_of_not_clash (hc.reserved x hx)
 
 /-- **No trace of an absent id.**  In a consistent state every line of the bucket dump is made of
     bucket names, values and ids of *existing* entities only. -/
-theorem no_trace_of_absent {s : State} {id : Id} (hi : Inv s) (hc : NoClash id s)
+theorem no_trace_of_absent {nm : Names} {s : State} {id : Id} (hi : Inv s) (hc : NoClash nm id s)
     (hna : s.a.lookup id = none) (hnb : s.b.lookup id = none) :
-    ∀ l, l ∈ Render s → ¬ Mentions id l := by
+    ∀ l, l ∈ Render nm s → ¬ Mentions id l := by
   have aId : ∀ j e, s.a.lookup j = some e → ¬ Clash id j := fun j e hj =>
     hc.aIds j e hj (by rintro rfl; rw [hna] at hj; cases hj)
   have bId : ∀ j e, s.b.lookup j = some e → ¬ Clash id j := fun j e hj =>
@@ -128,8 +128,10 @@ theorem no_trace_of_absent {s : State} {id : Id} (hi : Inv s) (hc : NoClash id s
   have sI : Safe id bIndexes := safe_reserved hc (by simp [reserved])
   have sT : Safe id bThings := safe_reserved hc (by simp [reserved])
   have sO : Safe id bOwners := safe_reserved hc (by simp [reserved])
-  have sN : Safe id bName := safe_reserved hc (by simp [reserved])
-  have sA : Safe id bAlias := safe_reserved hc (by simp [reserved])
+  have sN : Safe id nm.nameSym := safe_reserved hc (by simp [reserved])
+  have sA : Safe id nm.aliasSym := safe_reserved hc (by simp [reserved])
+  have sNk : Safe id nm.nameKey := safe_reserved hc (by simp [reserved])
+  have sAk : Safe id nm.aliasKey := safe_reserved hc (by simp [reserved])
   have sR : Safe id bRoles := safe_reserved hc (by simp [reserved])
   have sOw : Safe id bOwner := safe_reserved hc (by simp [reserved])
   have sG : Safe id bGroups := safe_reserved hc (by simp [reserved])
@@ -145,6 +147,9 @@ theorem no_trace_of_absent {s : State} {id : Id} (hi : Inv s) (hc : NoClash id s
   have sPO : Safe id bPalsOf := safe_reserved hc (by simp [reserved])
   have sRB : Safe id bRcB := safe_reserved hc (by simp [reserved])
   have sRA : Safe id bRcA := safe_reserved hc (by simp [reserved])
+  have sPe : Safe id bPeers := safe_reserved hc (by simp [reserved])
+  have sMo : Safe id bMentors := safe_reserved hc (by simp [reserved])
+  have sMe : Safe id bMentees := safe_reserved hc (by simp [reserved])
   have aOf : ∀ j, s.aEx j = true → ∃ e, s.a.lookup j = some e := by
     intro j hj; cases hl : s.a.lookup j with
     | none => simp [State.aEx, hl] at hj
@@ -206,10 +211,11 @@ theorem no_trace_of_absent {s : State} {id : Id} (hi : Inv s) (hc : NoClash id s
       · exact hn
       · exact hm
     simp only [renderA, List.mem_append, List.mem_cons, List.mem_nil_iff, or_false, mem_optBucket] at hl
-    rcases hl with (((((rfl | rfl | rfl | rfl | rfl | rfl) | hl) | ⟨gs, hg, hl⟩) | ⟨c, hrc, hl⟩) | hl) | hl
+    rcases hl with ((((((((rfl | rfl | rfl | rfl | rfl | rfl) | hl) | ⟨gs, hg, hl⟩) | ⟨c, hrc, hl⟩) | ⟨ps, hpe, hl⟩) |
+      ⟨ms, hmo, hl⟩) | ⟨ms, hme, hl⟩) | hl) | hl
     · exact not_mentions_bucket hp
-    · exact not_mentions_kv hp sN (safe_typed (hc.name j e hj))
-    · exact not_mentions_kv hp sA (safe_optField hc.nil (fun a ha => hc.alias j e a hj ha))
+    · exact not_mentions_kv hp sNk (safe_typed (hc.name j e hj))
+    · exact not_mentions_kv hp sAk (safe_optField hc.nil (fun a ha => hc.alias j e a hj ha))
     · exact not_mentions_kv hp sOw (safe_optField hc.nil (refB e.owner (hi.ownerExists j e hj)))
     · exact not_mentions_kv hp sD (safe_optField hc.nil (refB e.dep (hi.depExists j e hj)))
     · exact not_mentions_kv hp sBo (safe_optField hc.nil (refA e.boss (fun hne => hi.boss j e hj hne (by simp))))
@@ -222,6 +228,18 @@ theorem no_trace_of_absent {s : State} {id : Id} (hi : Inv s) (hc : NoClash id s
       intro k n hkn
       obtain ⟨eb, hb⟩ := bOf k (hi.rc.fwd_target hrc hkn)
       exact bId k eb hb
+    · refine not_mentions_listBucket hc.ne (hp2 _ sPe) ?_ l hl
+      intro k hkm
+      obtain ⟨ea, ha⟩ := aOf k (hi.pe.member hpe hkm)
+      exact aId k ea ha
+    · refine not_mentions_listBucket hc.ne (hp2 _ sMo) ?_ l hl
+      intro k hkm
+      obtain ⟨ea, ha⟩ := aOf k (hi.mt.fwd_target hmo hkm)
+      exact aId k ea ha
+    · refine not_mentions_listBucket hc.ne (hp2 _ sMe) ?_ l hl
+      intro k hkm
+      obtain ⟨ea, ha⟩ := aOf k (hi.mt.bwd_source hme hkm)
+      exact aId k ea ha
     · cases hcd : e.code with
       | none => simp [hcd] at hl
       | some c =>
@@ -334,8 +352,8 @@ open StorageModel.C03 (Map Id typed nilField)
 instance (id x : Bytes) : Decidable (Clash id x) := by unfold Clash; exact inferInstance
 
 /-- executable sufficient check for `NoClash` (used for the non-vacuity examples) -/
-def noClashCheck (id : Id) (s : State) : Bool :=
-  decide (id ≠ []) && decide (id.length < 5) && reserved.all (fun x => decide (¬ Clash id x)) && decide (¬ Clash id nilField) &&
+def noClashCheck (nm : Names) (id : Id) (s : State) : Bool :=
+  decide (id ≠ []) && decide (id.length < 5) && (reserved nm).all (fun x => decide (¬ Clash id x)) && decide (¬ Clash id nilField) &&
   decide (¬ Clash id []) &&
   s.a.entries.all (fun p =>
     (decide (p.1 = id) || decide (¬ Clash id p.1)) && decide (¬ Clash id p.2.name) &&
@@ -353,7 +371,7 @@ theorem counts_no_clash {id : Id} (h : id.length < 5) (n : Nat) : ¬ Clash id (e
   · simp [encCount, typed] at h1
   · rw [← h1] at h; simp [encCount, typed] at h
 
-theorem noClash_of_check {id : Id} {s : State} (h : noClashCheck id s = true) : NoClash id s := by
+theorem noClash_of_check {nm : Names} {id : Id} {s : State} (h : noClashCheck nm id s = true) : NoClash nm id s := by
   simp only [noClashCheck, Bool.and_eq_true, decide_eq_true_eq, List.all_eq_true, Bool.or_eq_true, Prod.forall,
     Map.mem_entries_iff] at h
   obtain ⟨⟨⟨⟨⟨⟨h1, h0⟩, h2⟩, h3⟩, h6⟩, h4⟩, h5⟩ := h
